@@ -15,7 +15,8 @@ RULE = ("scripted bus histories for Proxy::receive_signal/receive_all_signals ov
         "message at a time; as much as possible at once; reply together with what follows it); random histories of "
         "up to 12 events over 30 kinds (no sender, wrong path / interface / name / body, forged notifications on the driver's and on "
         "the proxy's path, Properties signals), random batchings and poll points; unique-name destinations; proxies on interface "
-        "org.freedesktop.DBus (forgery class); inconsistent lookup answers (model only). non-trivial = at least one signal yielded")
+        "org.freedesktop.DBus (peers' claims on the proxy's path); inconsistent lookup answers, unstamped signals and driver signals off the "
+        "driver's path (model only). non-trivial = at least one signal yielded")
 TRUSTED = ["harness hproxy: in-process fake bus behind a custom Socket (recvmsg returns Pending when the script has nothing "
            "to read), Builder::authenticated_socket without p2p (a bus connection), the harness ticks the connection's executor to "
            "quiescence after every batch"]
@@ -23,10 +24,11 @@ ASSUMPTIONS = ["one socket-reader task hands each message to every matching chan
                "async-broadcast: a receiver sees, in order, exactly the messages broadcast after it was created/activated; "
                "capacities only delay the reader (not modelled: a stream that is never polled blocks the connection)",
                "the bus stamps every message with its sender, answers GetNameOwner consistently with the NameOwnerChanged signals "
-               "it sent before, and never names org.freedesktop.DBus as the owner of a well-known name (spec side; the model "
-               "covers the other histories too)",
+               "it sent before, never names org.freedesktop.DBus as the owner of a well-known name, and its driver emits "
+               "NameOwnerChanged from /org/freedesktop/DBus only, never from the proxied object (spec side; the model covers the "
+               "other histories too); the proxied object's path is not /org/freedesktop/DBus",
                "no I/O errors, the connection stays open"]
-PARTIAL = ["C32_owner_partial", "C32_release_buffered_refuted", "C32_dbus_iface_forgery_refuted", "C32_full_statement_refuted"]
+PARTIAL = []
 
 A = g.sig(1)
 Bf = g.sig(2)
@@ -153,19 +155,21 @@ def search(rng, bad_cases):
 
 ENABLED = True
 LEVEL = "proof"
-LEVEL_TEXT = ("Theorems in coq/theories/Properties/C32.v about a Gallina mirror of Proxy::receive_signal(s): subscribe_dest_owner_change, "
-              "SignalStream::new (ordered join of the NameOwnerChanged stream with the GetNameOwner reply, buffered notification), "
-              "SignalStream::filter / poll_next_before, MatchRule::matches, the socket reader's in-order fan-out, MessageStream's "
+LEVEL_TEXT = ("Theorems in coq/theories/Properties/C32.v about a Gallina mirror of Proxy::receive_signal(s) as repaired by the fix: commits "
+              "902c9069 and 0bffda5d: subscribe_dest_owner_change, SignalStream::new (ordered join of the NameOwnerChanged stream with the "
+              "GetNameOwner reply, buffered notification incl. a release), SignalStream::filter (only the driver's NameOwnerChanged "
+              "changes the owner) / poll_next_before, MatchRule::matches, the socket reader's in-order fan-out, MessageStream's "
               "NoneBefore rule, PendingMethodCall, and a line-by-line transcription of ordered_stream::Join. For every bus history and "
-              "EVERY interleaving of socket reader, stream creation and consumer (induction over the schedule): what is yielded is a "
-              "prefix of the list the specification demands (wanted signals whose sender is the owner established by the lookup and "
-              "the driver's later notifications), all of it once everything is read and polled; forged ownership claims can be "
-              "replaced by noise without changing any run; the panic site is unreachable. PARTIAL: the full statement is refuted "
-              "by the faithful model in two classes (a buffered release notification is dropped; a proxy on interface "
-              "org.freedesktop.DBus trusts peers' claims), both confirmed on the real code and listed as known findings.")
+              "EVERY interleaving of socket reader, stream creation and consumer (induction over the schedule), at FULL strength (no "
+              "known class left): what is yielded is a prefix of the list the specification demands (wanted signals whose sender is the "
+              "owner established by the lookup and the driver's later notifications), all of it once everything is read and polled; "
+              "nothing is withheld at any moment; forged ownership claims can be replaced by noise without changing any run; the panic "
+              "site is unreachable; the witnesses of the two repaired findings now run as specified.")
 LEVEL_NOTE = ("Trusted: Coq kernel; the hand-written model, tied to the code by running the real Proxy/SignalStream over a real bus "
               "connection against an in-process scripted bus on ~14k (quick) histories x batchings and comparing yielded messages, "
               "completion and the calls made; the substrate contracts in ASSUMPTIONS (single in-order reader, broadcast channels "
               "without loss, executor fairness not needed: safety only). The correspondence exercises schedules of the shape "
-              "'read a batch, run every task to quiescence, poll'; finer interleavings are covered by the theorem only. Bus "
-              "histories that a sequential, stamping bus cannot produce are compared model-vs-code but not against the specification.")
+              "'read a batch, run every task to quiescence, poll'; finer interleavings are covered by the theorem only. Histories "
+              "that a sequential, stamping bus cannot produce are compared model-vs-code but not against the specification. The "
+              "proxied object's path is fixed and differs from /org/freedesktop/DBus (a proxy for a well-known name served AT the "
+              "driver's path and interface is not modelled).")
